@@ -14,7 +14,7 @@ RULE = (
     "non-trivial = the compared field is non-zero and (for reflections) the configuration differs from its mirror image"
 )
 ASSUMPTIONS = ["finite alphabets; nx<=4, ny<=7, <=2 surfaces", "coupled solvers tightened to rtol 1e-13", "OpenMDAO/NumPy/SciPy trusted"]
-BOUND = {"quick": "nx<=3 (+ one planform with nx=4), ny<=5", "thorough": "nx<=4, ny<=7"}
+BOUND = {"quick": "nx<=3 (+ one planform with nx=4), ny<=5 exhaustively; production-size lattices 7x17, 5x11, 6x13 and beams of 21 nodes in addition", "thorough": "nx<=4, ny<=7"}
 TOL = 1e-9
 TOLS = 1e-7
 POLAR = np.array([1.0, -1.0, 1.0])
@@ -39,6 +39,13 @@ def states(tier, seed):
         if nx == 3 and ny == 5 and pf in ("swept", "twdi"):
             # the compressible (Prandtl-Glauert) solution path, positive and negative sideslip in each member of the pair
             st.append(dict(part="aero", pf=pf, nx=nx, ny=ny, alpha=al, beta=be, rot=rot, two=two, comp=0.6, fam=fam))
+    # production-size lattices / beams (index arithmetic beyond nx = 4, ny = 7)
+    for (pf, nx, ny), be, rot, two in itertools.product([("twdi", 7, 17), ("camber", 5, 11)], [0.0, 4.0], [False, True], [False, True]):
+        st.append(dict(part="aero", pf=pf, nx=nx, ny=ny, alpha=5.0, beta=be, rot=rot, two=two, fam=fam))
+    st.append(dict(part="aero", pf="twdi", nx=6, ny=13, alpha=5.0, beta=4.0, rot=True, two=True, comp=0.6, fam=fam))
+    for model, ny, pm in itertools.product(["tube", "wingbox"], [21, 41] if tier == "thorough" else [21], ["none", "both"]):
+        st.append(dict(part="struct", model=model, pf="twdi", ny=ny, relief=True, pm=pm, fam=fam))
+        st.append(dict(part="structlr", model=model, ny=(ny + 1) // 2, relief=True, pm=(pm == "both"), fam=fam))
     # (a2) struct alone
     for model, pf, ny, relief, pm in itertools.product(["tube", "wingbox"], ["swept", "twdi"], nys, [False, True], ["none", "left_inboard", "right_outboard", "both"]):
         st.append(dict(part="struct", model=model, pf=pf, ny=ny, relief=relief, pm=pm, fam=fam))
